@@ -39,7 +39,7 @@ RULE = ('Hypothesis models of install-rule projects (1-9 rules out of install_da
         'installing (14 install-heavy ones plus 10 seed-chosen in the quick tier; all of them under two option sets in the thorough tier), built files '
         'replaced by stand-ins: --dry-run changes nothing, install changes nothing outside DESTDIR, install-log.txt names exactly existing paths and '
         'every created file/symlink, --only-changed after an unchanged install rewrites nothing, uninstall leaves no installed file, symlink or logged '
-        'directory; class corpus, non-trivial = >= 2 installed files.')
+        'directory; class corpus, non-trivial = >= 2 installed files. Subproject-filter matrix: a project whose subproject installs data, a header and - through project(license_files:) with the licensedir option - licence files, installed plainly and with --skip-subprojects [name]: every file of the subproject carries bytes found nowhere else; a plain install must create each, a skipping install none.')
 ASSUMPTIONS = [
     'the check runs as root (chown works, no permission-denied paths)',
     'default directory permissions = 0777 masked by install_umask, default file permissions = 0666 (0777 when the source has an x bit) masked by install_umask (Release-notes-for-0.47.0.md); under install_umask=preserve only file modes are specified',
@@ -1576,8 +1576,68 @@ def script_destdir_matrix(ctx: Ctx) -> None:
     shutil.rmtree(root, ignore_errors=True)
 
 
+def subproject_filter_matrix(ctx: Ctx) -> None:
+    """--skip-subprojects against everything a subproject makes meson install, including what is installed on its behalf
+    without an install_*() call of its own: licence files (project(license_files:), installed with the dependency manifest
+    when licensedir is set).  Content-based and layout-free: every file of the subproject carries bytes found nowhere else;
+    a plain install must create a copy of each (so the relation is not vacuous), an install that skips the subproject none."""
+    from harness import mesondrv as M
+    root = os.path.join(ctx.scratch, 'sp-filter')
+    src, bld = os.path.join(root, 'src'), os.path.join(root, 'bld')
+    marks = {'sp-licence': b'LICENCE TEXT OF SUBPROJECT spf\n', 'sp-data': b'DATA OF SUBPROJECT spf\n', 'sp-header': b'/* HEADER OF SUBPROJECT spf */\n'}
+    mains = {'main-licence': b'LICENCE TEXT OF MAIN\n', 'main-data': b'DATA OF MAIN\n'}
+    M.write_tree(src, {
+        'meson.build': "project('spfmain', license: 'MIT', license_files: ['COPYING'])\ninstall_data('m.txt', install_dir: 'share/m')\nsubproject('spf')\n",
+        'COPYING': mains['main-licence'], 'm.txt': mains['main-data'],
+        'subprojects/spf/meson.build': "project('spf', license: 'BSD-3-Clause', license_files: ['COPYING.spf', 'doc/NOTICE'])\n"
+                                       "install_data('s.txt', install_dir: 'share/s')\ninstall_headers('s.h')\n",
+        'subprojects/spf/COPYING.spf': marks['sp-licence'], 'subprojects/spf/doc/NOTICE': marks['sp-licence'] + b'notice\n',
+        'subprojects/spf/s.txt': marks['sp-data'], 'subprojects/spf/s.h': marks['sp-header']})
+    for what, setup_extra in (('licensedir option', ['-Dlicensedir=share/licenses/spfmain']), ('no licensedir', [])):
+        shutil.rmtree(bld, ignore_errors=True)
+        r = M.run_sub(['setup', '--prefix=/usr'] + setup_extra + [bld, src], cwd=root)
+        if r.rc != 0:
+            raise HarnessError(f'subproject-filter project does not configure: {r!r}')
+        for how, args in (('plain', []), ('--skip-subprojects spf', ['--skip-subprojects', 'spf']), ('--skip-subprojects', ['--skip-subprojects']),
+                          ('--skip-subprojects other', ['--skip-subprojects', 'other'])):
+            dest = os.path.join(root, 'dest')
+            shutil.rmtree(dest, ignore_errors=True)
+            ir = M.run_sub(['install', '--no-rebuild', '-C', bld, '--destdir', dest] + args, cwd=root)
+            case = {'subproject_filter': what, 'install': how}
+            ctx.ev.case(case, nontrivial=bool(args), cls='subproject-filter/' + ('licensedir' if setup_extra else 'plain'), sample=case)
+            if ir.rc != 0:
+                ctx.fail(Failure('subproject-filter/install-failed', case, f'{what}, meson install {how}: exit {ir.rc}\n{ir.text[-900:]}'))
+                continue
+            found: T.Dict[str, T.List[str]] = {}
+            for dp, _dn, fns in os.walk(dest):
+                for fn in fns:
+                    full = os.path.join(dp, fn)
+                    if os.path.islink(full):
+                        continue
+                    with open(full, 'rb') as fh:
+                        data = fh.read()
+                    for name, mark in list(marks.items()) + list(mains.items()):
+                        if data.startswith(mark):
+                            found.setdefault(name, []).append(os.path.relpath(full, dest))
+            skipping = how in ('--skip-subprojects spf', '--skip-subprojects')
+            expect_sp = set() if skipping else ({'sp-data', 'sp-header'} | ({'sp-licence'} if setup_extra else set()))
+            expect_main = {'main-data'} | ({'main-licence'} if setup_extra else set())
+            got_sp = {n for n in found if n in marks}
+            got_main = {n for n in found if n in mains}
+            if got_sp - expect_sp:
+                ctx.fail(Failure('subproject-filter/skipped-subproject-file-installed', case,
+                                 f'{what}, `meson install {how}`: files of the skipped subproject were installed: '
+                                 f'{ {n: found[n] for n in sorted(got_sp - expect_sp)} } (restricted to ... skipped subprojects)'))
+            elif expect_sp - got_sp or expect_main - got_main:
+                ctx.fail(Failure('subproject-filter/file-not-installed', case,
+                                 f'{what}, `meson install {how}`: nothing with the content of {sorted((expect_sp - got_sp) | (expect_main - got_main))} '
+                                 f'was installed (installed: {found})'))
+    shutil.rmtree(root, ignore_errors=True)
+
+
 def run(ctx: Ctx) -> None:
     script_destdir_matrix(ctx)
+    subproject_filter_matrix(ctx)
     seeds = shard_seeds(ctx, 64)
     per = ctx.n(60, 900)
     # findings already reproduced by the regress replays (run first by the harness) need no second probe
@@ -1614,6 +1674,10 @@ def replay(ctx: Ctx, case: T.Any, doc: dict) -> T.Optional[Failure]:
     if isinstance(case, dict) and 'corpus' in case:
         from harness import c11corpus
         return c11corpus.check_corpus(case, os.path.join(work, 'corpus'), None)
+    if isinstance(case, dict) and case.get('subproject_filter'):
+        c2 = Ctx(ctx.prop, ctx.tier, ctx.seed)
+        subproject_filter_matrix(c2)
+        return next(iter(c2.failures.values()), None)
     if isinstance(case, dict) and case.get('script_destdir'):
         c2 = Ctx(ctx.prop, ctx.tier, ctx.seed)
         script_destdir_matrix(c2)
